@@ -957,3 +957,70 @@ def random_script(rng):
 def random_cases(rng, tier):
     n = 6000 if tier == "quick" else 120000
     return [(("random script",), random_script(rng)) for _ in range(n)]
+
+
+def framing_cases(rng, tier):
+    """well-behaved applications with generated bodies, for the client-side search of C03"""
+    out = []
+    n = 1500 if tier == "quick" else 40000
+    names = ["Content-Type", "x-custom", "ETag", "Set-Cookie", "Cache-control", "X-a-b-c", "Server", "Date", "Via", "Vary"]
+    vals = ["text/plain", "a", "", " padded ", "a: b", "W/\"x\"", "\xe9t\xe9", "1, 2"]
+    sizes = [0, 0, 1, 2, 9, 15, 16, 17, 255, 256, 300, 4096]
+    for _ in range(n):
+        chunks = [bytes(rng.randrange(256) for _ in range(rng.choice(sizes))) if rng.random() < 0.3
+                  else bytes([rng.choice(b"ab\r\n0")]) * rng.choice(sizes)
+                  for _ in range(rng.choice([0, 1, 1, 2, 3, 5]))]
+        wr = None
+        if rng.random() < 0.2:
+            wr = bytes([rng.choice(b"wx")]) * rng.choice(sizes)
+        total = sum(map(len, chunks)) + (len(wr) if wr else 0)
+        hs = [(rng.choice(names), rng.choice(vals)) for _ in range(rng.choice([0, 1, 2, 3]))]
+        r = rng.random()
+        if r < 0.25:
+            hs.append(("Content-Length", str(total)))
+        elif r < 0.35:
+            hs.append(("content-length", str(total + rng.choice([1, 5]))))
+        elif r < 0.45 and total:
+            hs.append(("CONTENT-LENGTH", str(rng.randrange(total))))
+        rng.shuffle(hs)
+        status = rng.choice(["200 OK", "200 OK", "404 Not Found", "201", "500 Oops", "302 Found"])
+        head = rng.random() < 0.1
+        if rng.random() < 0.1:
+            status = rng.choice(["204 No Content", "304 Not Modified", "100 Continue"])
+        if head or status[0] == "1" or status[:3] in ("204", "304"):
+            chunks = [b"" for _ in chunks]
+            wr = None
+        kr = rng.random()
+        extra = {}
+        if kr < 0.35:
+            kind = ("sized", len(chunks))
+            extra["has_close"] = False
+        elif kr < 0.75:
+            kind = ("gen",)
+        else:
+            seekable = rng.random() < 0.6
+            kind = ("file", seekable)
+            bs = rng.choice([1, 3, 16, 32768])
+            content = b"".join(chunks)
+            chunks = [content[i:i + bs] for i in range(0, len(content), bs)]
+            extra["block_size"] = bs
+            extra["prefix"] = rng.choice([0, 0, 5])
+        call = [S(status, hs)]
+        if wr:
+            call.append(W(wr))
+        version = rng.choice(["1.0", "1.1", "1.1", "1.1", "0.9"])
+        conn = rng.choice(CONNS)
+        out.append((("framing", status, kind[0]), mk_case(call, kind=kind, steps=[Y(x) for x in chunks],
+                                                        version=version, conn=conn, head=head, **extra)))
+    # error responses produced directly from request.error
+    for cls, body in (("BadRequest", "Invalid header"), ("RequestEntityTooLarge", "exceeds max_body"),
+                      ("ServerNotImplemented", "nope")):
+        for version in VERSIONS:
+            for conn in CONNS:
+                out.append((("error task", cls, version, conn), mk_case(version=version, conn=conn, err=[cls, body])))
+    # application failures answered by the ladder's 500
+    for version in VERSIONS:
+        for conn in CONNS:
+            c = mk_case([["R", "XE"]], version=version, conn=conn)
+            out.append((("ladder 500", version, conn), c))
+    return out
